@@ -99,6 +99,20 @@ CLAIMED = {
              "interpreter that a started Task equals its eager twin and that cancellation runs no value callback, and every "
              "program is executed on the real Task API (nothing may run before the start).",
         note=SEQ_NOTE, design="7/C12", technique="TLA+ reference interpreter; TLC-enumerated programs replayed on the code"),
+    "C14": dict(
+        text="CoMutex.tla models yaclib::Mutex<Batching,FIFO> with the pool's workers as processes and the coroutines as "
+             "passive objects: sender word (not locked / locked / LIFO list of new waiters), holder-private receiver list, "
+             "TryLockAwait, AwaitLock, TryUnlockAwait, GetHead (reversal under FIFO), the three hand-off variants "
+             "(UnlockHereAwait, batched AwaitUnlock, AwaitUnlockOn) and the guard forms, one action per yaclib_std "
+             "operation with the plain code in between (suspension, pool loop, take, resumption, symmetric transfer) as "
+             "silent program points; TLC checks mutual exclusion, every request granted exactly once, nobody parked at "
+             "the end (deadlock freedom; <>Quiescent under weak fairness in thorough), FIFO grant order, and that a "
+             "critical section's plain write is ordered before the next section's read (MemModel); executions of real "
+             "coroutines on a harness pool are enumerated under the controlled scheduler and validated against the "
+             "specification by TLC.",
+        note=CONC_NOTE + "; 2-4 coroutines x 1-3 rounds, 1-3 workers; executor = harness pool", design="7/C14",
+        technique="TLA+ spec + TLC model checking (safety, deadlock, liveness); schedule enumeration on the code with TLC "
+                  "trace validation"),
     "C16": dict(
         text="WaitGroup.tla models the count (AtomicCounter with the Set-on-zero deleter), the event's list head (TryAdd push "
              "vs the exchange of Set), the three kinds of registered jobs (stack Waiter, heap TimedWaiter with two owners, "
